@@ -157,7 +157,7 @@ func HarnessDeployGate() {
 	vAssert(ret <= deadline+int64(drainTimeout), "gate: deploy returns within deploy-timeout + drain-timeout")
 	vCover(err == nil, "successful deploy reachable")
 	vCover(err != nil, "failed deploy reachable")
-	vCover(err == nil && len(vTrace) > 0 && vClientResults[0].body == "FROM[new0:80]", "request served by a new target reachable")
+	vCover(C == 0 || (err == nil && len(vTrace) > 0 && vClientResults[0].body == "FROM[new0:80]"), "request served by a new target reachable")
 	_ = http.StatusOK
 }
 
